@@ -88,7 +88,7 @@ def leg(pid, tier, seed, verdict):
             continue
         k = p.get("k", 2) if tier == "quick" else p.get("k", 2) + 1
         t0 = time.time()
-        runs, truncated = explore(name, k, limit=4000 if tier == "quick" else 40000)
+        runs, truncated = explore(name, k, limit=4000 if tier == "quick" else 9000)
         recs, lins, byid = [], [], {}
         allops = {o["op"] for t in p["threads"] for o in t}
         hist_module = None if "clear" in allops else "Trace_Hist" if allops & {"iter", "retain", "retain_force"} else "Trace_Lin"
@@ -225,7 +225,7 @@ def tree_leg(pid, tier, seed, verdict):
             continue
         k = 1 if tier == "quick" else 2
         t0 = time.time()
-        runs, truncated = explore_tree(name, k, limit=1500 if tier == "quick" else 12000)
+        runs, truncated = explore_tree(name, k, limit=1500 if tier == "quick" else 6000)
         hists, rbs, tls, rcs, byid = [], [], [], [], {}
         for job, trace, crash in runs:
             if crash is not None:
